@@ -4,6 +4,7 @@ import RsModel.Lemmas.PosTree
 import RsModel.Lemmas.ModeTree2
 import RsModel.Lemmas.ModeMap
 import RsModel.Lemmas.ModeCold
+import RsModel.Lemmas.NameLevel
 /-!
 # C03 — `map()` attributes every position exactly as the chunk stream does
 (T1 of DESIGN: the codec step of the chain.)
@@ -127,5 +128,19 @@ theorem c03_tree_cached (s : Src) (h : s.ModeHypC) (hn : s.ids.Nodup) (σF σN :
 /-- on cold caches the stream of a tree does not depend on what else the store holds -/
 theorem c03_cold_store_irrelevant (s : Src) (o : Opts) (σ σ' : Store) (hn : s.ids.Nodup) (hc : Cold σ s.ids) (hc' : Cold σ' s.ids) :
     (s.stream o σ).1 = (s.stream o σ').1 := Src.stream_cold s o σ σ' hn hc hc'
+
+
+/-! ## the statement of the property itself: file *names*, lines, columns and *names* -/
+
+/-- **C03, name level** (columns = true): for every tree in the domain (all node kinds except the combinator; CachedSource nodes on
+cold caches), resolving the position of every character of `source()` through the SourceMap returned by `get_map` — greatest
+segment at or before the position on its line, then the map's own `sources` and `names` tables — gives the same original file
+name, line, column and name as the chunk that covers the position in the stream an outside caller obtains resolves to through
+the announcements of that stream (`attrN`); positions the stream leaves unmapped resolve to nothing. -/
+theorem c03_names (s : Src) (h : s.ModeHypC) (hn : s.ids.Nodup) (σF σN : Store) (hcF : Cold σF s.ids) (hcN : Cold σN s.ids) (final : Bool)
+    (hsmall : ∀ m ∈ chunkMs (s.stream ⟨true, true⟩ σF).1.evs, m.small) (sm : SMap) (hm : (getMap s ⟨true, final⟩ σF).1 = some sm) :
+    (attrFrom (decode sm.mappings) startPos s.src).map (Option.map (resolveMF sm))
+      = (attrN emptyS emptyN (s.stream ⟨true, false⟩ σN).1.evs).map (Option.map RLoc.toN) :=
+  getMap_names s h hn σF σN hcF hcN final hsmall sm hm
 
 end Rs
